@@ -351,19 +351,33 @@ class MultiValue(Object):
             v.resolve(ctx) for v in self.values)))
         return result
 
+    _busy = False  # self.a = self.b; self.b = self.a: a value may contain itself
+
     def attr_list(self, ctx):
         # type: (EvalCtx) -> AttrList
         result: set[str] = set()
-        for v in self.get_rvalues(ctx):
-            result.update(v.attr_list(ctx))
+        if self._busy:
+            return result
+        self._busy = True
+        try:
+            for v in self.get_rvalues(ctx):
+                result.update(v.attr_list(ctx))
+        finally:
+            self._busy = False
         return result
 
     def get_attr(self, ctx, name):
         # type: (EvalCtx, str) -> Object | Name | None
-        for v in self.get_rvalues(ctx):
-            result = v.get_attr(ctx, name)
-            if result is not None:
-                return result
+        if self._busy:
+            return None
+        self._busy = True
+        try:
+            for v in self.get_rvalues(ctx):
+                result = v.get_attr(ctx, name)
+                if result is not None:
+                    return result
+        finally:
+            self._busy = False
         return None
 
 
